@@ -15,6 +15,7 @@ import (
 	"strings"
 	"sync"
 	"testing"
+	"time"
 
 	"github.com/saucelabs/forwarder/internal/zzverif/vstat"
 	"pgregory.net/rapid"
@@ -67,6 +68,9 @@ type C14Case struct {
 	MyIPEx  []string `json:"my_ip_ex"`
 	Queries []Query `json:"queries"`
 	Workers int     `json:"workers"`
+	// Poison: evaluations that fail (the script returns a number for the host poison.invalid) sent through the pool
+	// before the concurrent phase: a failed evaluation must leave the pool as sound as a successful one.
+	Poison int `json:"poison,omitempty"`
 }
 
 var (
@@ -188,6 +192,12 @@ func genC14(t *rapid.T) C14Case {
 		c.Queries = append(c.Queries, q)
 	}
 	c.Workers = rapid.SampledFrom([]int{1, 2, 4, 8, 32}).Draw(t, "workers")
+	if rapid.IntRange(0, 2).Draw(t, "poisoned") == 0 {
+		c.Poison = rapid.IntRange(1, 6).Draw(t, "poison")
+		if c.Workers < 2 {
+			c.Workers = 4
+		}
+	}
 	return c
 }
 
@@ -240,7 +250,11 @@ func (c C14Case) Script() string {
 	if c.Ex {
 		name = "FindProxyForURLEx"
 	}
-	return "function " + name + "(url, host) {\n" + c.Tree.JS("  ") + "}\n"
+	poison := ""
+	if c.Poison > 0 {
+		poison = "  if (host == \"poison.invalid\") { return 42; }\n"
+	}
+	return "function " + name + "(url, host) {\n" + poison + c.Tree.JS("  ") + "}\n"
 }
 
 // ---------------------------------------------------------------------------
@@ -493,6 +507,9 @@ func (r refCtx) outsideTree(n Node) bool {
 func (c C14Case) config() *ProxyResolverConfig {
 	cfg := &ProxyResolverConfig{Script: c.Script()}
 	cfg.testingLookupIP = func(_ context.Context, network, host string) ([]net.IP, error) {
+		if c.Poison > 0 {
+			time.Sleep(50 * time.Microsecond) // lookups take time: evaluations of several callers overlap
+		}
 		var out []net.IP
 		if ip := net.ParseIP(host); ip != nil {
 			if network == "ip4" && ip.To4() == nil {
@@ -564,6 +581,12 @@ func runC14(c C14Case) (fails []vstat.Failure) {
 	if len(fails) > 0 {
 		return fails
 	}
+	for i := 0; i < c.Poison; i++ {
+		pu, _ := url.Parse("http://poison.invalid/")
+		if got, err := pool.FindProxyForURL(pu, ""); err == nil {
+			fails = append(fails, vstat.Failf("C14:non-string-result-accepted", "a script returning the number 42 gave %q without an error", got))
+		}
+	}
 	// concurrency: the pool must give the sequential answers
 	var wg sync.WaitGroup
 	var mu sync.Mutex
@@ -630,6 +653,9 @@ func classifyC14(c C14Case) (bool, string, []string) {
 		cls = append(cls, "entry-Ex")
 	}
 	cls = append(cls, fmt.Sprintf("workers=%d", c.Workers))
+	if c.Poison > 0 {
+		cls = append(cls, "failed-evaluations-before-the-concurrent-phase")
+	}
 	seenURL := map[string]string{}
 	for _, q := range c.Queries {
 		if q.Host != "" {
